@@ -49,11 +49,12 @@ const (
 	styIndent
 	styBlanks
 	styEscapeAll // every non-ASCII and '/' escaped (\uXXXX, surrogate pairs, \/)
+	styIndentCRLF
 	numC17Styles
 )
 
 func (s c17Style) String() string {
-	return [...]string{"compact", "indented", "blanks around separators", "all escapes forced"}[s]
+	return [...]string{"compact", "indented", "blanks around separators", "all escapes forced", "indented with CRLF line ends and tabs"}[s]
 }
 
 func jsonString(s string, escapeAll bool) string {
@@ -107,6 +108,9 @@ func render(v interface{}, st c17Style, depth int) string {
 		if st == styIndent {
 			return "\n" + strings.Repeat("  ", d)
 		}
+		if st == styIndentCRLF {
+			return "\r\n" + strings.Repeat("\t", d)
+		}
 		if st == styBlanks {
 			return " "
 		}
@@ -137,7 +141,7 @@ func render(v interface{}, st c17Style, depth int) string {
 		var parts []string
 		for _, m := range x {
 			colon := ":"
-			if st == styIndent {
+			if st == styIndent || st == styIndentCRLF {
 				colon = ": "
 			}
 			parts = append(parts, nl(depth+1)+jsonString(m.K, st == styEscapeAll)+sep(colon)+render(m.V, st, depth+1))
@@ -229,7 +233,7 @@ func c17Docs(tier string) []interface{} {
 	}
 	docs = append(docs, true, false, nil)
 	// containers over a reduced leaf set
-	red := []interface{}{"", "a", `"`, `\`, `a\`, "a b", "é\U0001F600", "x,y", "/", "]", "}", ":", jnum("0"), jnum("-1"), jnum("1.5"), jnum("18446744073709551615"), true, nil}
+	red := []interface{}{"", "a", " a", "b\t", `"`, `\`, `a\`, "a b", "é\U0001F600", "x,y", "/", "]", "}", ":", jnum("0"), jnum("-1"), jnum("1.5"), jnum("18446744073709551615"), true, nil}
 	var lvl1 []interface{}
 	lvl1 = append(lvl1, []interface{}{}, jobj{})
 	for _, a := range red {
